@@ -146,9 +146,11 @@ func c18Body(c *run.Ctx) {
 	nontrivial := false
 	labels := map[string]bool{}
 	states := 0
+	var prev, last *pokertable.Table // previous decision-point snapshot (while this one is presented) / the one before
 	onState := func(s *sim.Sim, st handState) {
 		states++
 		gs := st.Table.State.GameState
+		prev, last = last, st.Table
 		// everybody at the table plus a stranger is shown the snapshot
 		ids := sim.AllPlayers(st.Table)
 		ids = append(ids, "stranger")
@@ -233,6 +235,24 @@ func c18Body(c *run.Ctx) {
 						c.Failf("C18.acted-on-stale-view", "%s: bot %s acted again on a stale view (%d calls)", st.Desc, id, n)
 					}
 					labels["stale_view"] = true
+					// a bot that has followed the hand: an earlier snapshot of the same hand first,
+					// then this one (exactly one more action), then both again (silence)
+					if prev != nil && prev.State.GameState != nil && prev.State.GameState.GameID == gs.GameID && prev.State.GameState.UpdatedAt < gs.UpdatedAt {
+						ad2, _ := newBot(id)
+						if pan := feed(func() { ad2.UpdateTableState(cloneT(prev)) }); pan != "" {
+							c.Failf("C18.bot-panicked", "%s: bot %s panicked on the previous snapshot: %s", st.Desc, id, pan)
+						}
+						n0 := len(ad2.Calls())
+						feed(func() { ad2.UpdateTableState(cloneT(st.Table)) })
+						n1 := len(ad2.Calls())
+						feed(func() { ad2.UpdateTableState(cloneT(st.Table)) })
+						feed(func() { ad2.UpdateTableState(cloneT(prev)) })
+						n2 := len(ad2.Calls())
+						if n1 != n0+1 || n2 != n1 {
+							c.Failf("C18.acted-on-stale-view", "%s: bot %s was shown the hand's previous snapshot (%d calls), this one (%d calls), then both again (%d calls): expected exactly one action for this request and silence on the repeats; calls %+v", st.Desc, id, n0, n1, n2, ad2.Calls())
+						}
+						labels["stale_view_after_following_the_hand"] = true
+					}
 				}
 				_ = a
 			}
